@@ -679,15 +679,16 @@ fn walk_dir(
                 .ok_or_else(|| WalkStop::Invalid(String::from("leaf offset overflows")))?;
             walk_dir(file, h, lo, u64::from(e.length), depth + 1, path, lim, w, strict_consumed)?;
         } else {
-            let end = e
+            // the last id of the run must exist (a run may end on id 2^64-1, it cannot go beyond)
+            let last = e
                 .tile_id
-                .checked_add(u64::from(e.run_length))
-                .ok_or_else(|| WalkStop::Invalid(String::from("tile id + run length overflows")))?;
+                .checked_add(u64::from(e.run_length) - 1)
+                .ok_or_else(|| WalkStop::Invalid(String::from("run reaches beyond tile id 2^64-1")))?;
             if w.tiles.len() as u64 + u64::from(e.run_length) > lim.max_tiles {
                 return Err(WalkStop::OverBudget(String::from("too many addressed tiles")));
             }
             w.entries.push(*e);
-            for id in e.tile_id..end {
+            for id in e.tile_id..=last {
                 w.tiles.insert(id, (e.offset, e.length));
             }
         }
@@ -789,14 +790,14 @@ pub fn validate(file: &[u8], o: &ValidateOpts) -> Result<Validated, String> {
         }
     }
     // entries strictly ascending and non-overlapping (in flattened visiting order)
-    let mut next_free = 0u64;
+    let mut next_free = 0u128;
     let mut first = true;
     for e in &w.entries {
-        if !first && e.tile_id < next_free {
+        if !first && u128::from(e.tile_id) < next_free {
             return Err(format!("entries not strictly ascending / overlapping at tile id {}", e.tile_id));
         }
         first = false;
-        next_free = e.tile_id + u64::from(e.run_length);
+        next_free = u128::from(e.tile_id) + u128::from(e.run_length);
         let end = e.offset.checked_add(u64::from(e.length)).ok_or("tile range overflows")?;
         if end > h.data_length {
             return Err(format!("tile range [{},{}) outside tile data section of {} bytes", e.offset, end, h.data_length));
